@@ -220,8 +220,9 @@ def is_write(sql):
 class Trace(object):
     """statement + signal trace of one run; optional fault at the k-th write statement"""
 
-    def __init__(self, alias='default', fail_at=None, fail_filter=None):
+    def __init__(self, alias='default', fail_at=None, fail_filter=None, fail_first=None):
         self.alias = alias
+        self.fail_first = fail_first       # predicate on the statement: the first matching write fails
         self.events = []
         self.fail_at = fail_at
         self.fail_filter = fail_filter or (lambda sql: True)
@@ -233,6 +234,11 @@ class Trace(object):
         if w:
             idx = self.writes
             self.writes += 1
+            if self.fail_first is not None and self.failed_sql is None and self.fail_first(sql):
+                from django.db.utils import OperationalError
+                self.failed_sql = sql
+                self.events.append(('fault', sql))
+                raise OperationalError('injected fault at write #%d' % idx)
             if self.fail_at is not None and idx == self.fail_at and self.fail_filter(sql):
                 from django.db.utils import OperationalError
                 self.failed_sql = sql
@@ -248,6 +254,7 @@ class Trace(object):
                 info['app'] = kw['task'].app_label
             if 'evolutions' in kw:
                 info['evolutions'] = [e.label for e in kw['evolutions']]
+                info['evolution_apps'] = [getattr(e, 'app_label', None) for e in kw['evolutions']]
             if 'app_label' in kw:
                 info['app'] = kw['app_label']
             if 'model_names' in kw:
